@@ -878,7 +878,7 @@ package dig
 //@   ensures[C08:other-scopes-untouched] forall x *Scope :: existed(x) && x != s ==> x.childScopes == old(x.childScopes)
 //@   loop range s.gh.nodes #1: invariant[C16:graph-copied-so-far] child.gh != nil && fresh(child.gh) && len(child.gh.nodes) == $i && (cap(child.gh.nodes) == 0 || fresh(child.gh.nodes))
 //@        && (forall j int :: 0 <= j && j < $i ==> child.gh.nodes[j] == s.gh.nodes[j])
-//@   loop range s.gh.nodes #1: invariant[C16:orders-copied-so-far,C08:orders-copied-so-far] forall j int :: 0 <= j && j < $i ==> orderOf(s.gh.nodes[j].Wrapped, child) == orderOf(s.gh.nodes[j].Wrapped, s)
+//@   loop range s.gh.nodes #1: invariant[C16:orders-copied-so-far,C08:orders-copied-so-far,C05:orders-copied-so-far] forall j int :: 0 <= j && j < $i ==> orderOf(s.gh.nodes[j].Wrapped, child) == orderOf(s.gh.nodes[j].Wrapped, s)
 //@   loop range s.gh.nodes #1: invariant[C16:parents-orders-kept] forall j int :: 0 <= j && j < len(s.gh.nodes) ==> orderOf(s.gh.nodes[j].Wrapped, s) == old(orderOf(s.gh.nodes[j].Wrapped, s))
 //@   loop range s.gh.nodes #1: invariant[C16:stores-separate-while-copying] graphsSeparate()
 //@   loop range s.gh.nodes #1: invariant[C16:links-kept-while-copying] childrenLinked() && childListsSeparate() && registriesSeparate() && decoratorMapsSeparate()
